@@ -6,7 +6,7 @@
 EXTENDS Transport, TLC
 VARIABLE cell
 Cells == [side : {"exporter", "collector"}, proto : {"tls", "dtls"}, srvCert : SrvCerts, srvName : SrvNames,
-          cliCert : CliCerts, cliCA : BOOLEAN, peerMax : {11, 12, 13}, plain : BOOLEAN]
+          cliCert : CliCerts, cliCA : BOOLEAN, peerMax : {11, 12, 13}, plain : BOOLEAN, cfg : {"ok", "badCA", "badKey"}]
 Init == cell \in Cells
 Next == UNCHANGED cell
 EstablishedImpliesVerified ==
@@ -14,7 +14,8 @@ EstablishedImpliesVerified ==
      (Chains(cell.srvCert) /\ InValidity(cell.srvCert) /\ cell.srvCert = "trusted" /\ cell.srvName # "mismatch" /\ cell.peerMax >= 12 /\ ~cell.plain)
 DeliveryImpliesClientAuth ==
   (cell.side = "collector" /\ cell.proto = "tls" /\ cell.cliCA /\ CollectorDelivers(cell) = "yes") => cell.cliCert = "trusted"
-NoPlaintext == cell.plain => (ExporterEstablishes(cell) = "no" /\ CollectorDelivers(cell) = "no")
+NoPlaintext == /\ cell.plain => (ExporterEstablishes(cell) = "no" /\ CollectorDelivers(cell) = "no")
+               /\ cell.cfg # "ok" => ExporterEstablishes(cell) = "no"
 DtlsRefusesUnverifiable ==
   (cell.side = "exporter" /\ cell.proto = "dtls" /\ cell.srvCert \in {"otherCA", "selfSigned", "expired", "notYetValid"}) => ExporterEstablishes(cell) = "no"
 =============================================================================
